@@ -218,20 +218,30 @@ func (ra *RouteAuthenticator) Authenticate(req *http.Request, route *MatchedRout
 	// iterate in proper order
 	var lastResult interface{}
 	for _, scheme := range ra.Schemes {
-		if authenticator, ok := ra.Authenticator[scheme]; ok {
-			applies, princ, err := authenticator.Authenticate(&security.ScopedAuthRequest{
-				Request:        req,
-				RequiredScopes: ra.Scopes[scheme],
-			})
-			if !applies {
-				return false, nil, nil
-			}
-			if err != nil {
-				route.Authenticator = ra
-				return true, nil, err
-			}
-			lastResult = princ
+		authenticator, ok := ra.Authenticator[scheme]
+		if !ok {
+			// every scheme of the requirement must be satisfied: one without
+			// a registered authenticator never is
+			return false, nil, nil
 		}
+		applies, princ, err := authenticator.Authenticate(&security.ScopedAuthRequest{
+			Request:        req,
+			RequiredScopes: ra.Scopes[scheme],
+		})
+		if !applies {
+			return false, nil, nil
+		}
+		if err != nil {
+			route.Authenticator = ra
+			return true, nil, err
+		}
+		if princ == nil {
+			// accepted without a principal: the requirement is not satisfied,
+			// whichever scheme happens to be consulted last
+			route.Authenticator = ra
+			return true, nil, nil
+		}
+		lastResult = princ
 	}
 	route.Authenticator = ra
 	return true, lastResult, nil
